@@ -4,8 +4,10 @@ lazily by `event.parsed` inside a PacketIn handler registered on core.openflow.
 
 OpenFlow bytes are built with harness/rawbytes.py (struct only).
 """
+import contextlib
 import errno
 import os
+import signal
 import socket as _socket
 import traceback
 
@@ -23,6 +25,31 @@ if not core.hasComponent("openflow"):
 of_01.DeferredSender.start = lambda self: None
 if of_01.deferredSender is None:
   of_01.deferredSender = of_01.DeferredSender()
+
+
+class Diverged(BaseException):
+  """the operation used more than CPU_LIMIT seconds of CPU time: it does not return"""
+
+
+CPU_LIMIT = 3.0
+
+
+def _on_alarm(signum, frame):
+  raise Diverged("no result after %.0f s of CPU time" % CPU_LIMIT)
+
+
+signal.signal(signal.SIGVTALRM, _on_alarm)
+
+
+@contextlib.contextmanager
+def deadline():
+  """divergence guard: CPU-time budget for one operation of the code under test (BaseException, so
+  that no `except Exception` inside POX swallows it)"""
+  signal.setitimer(signal.ITIMER_VIRTUAL, CPU_LIMIT)
+  try:
+    yield
+  finally:
+    signal.setitimer(signal.ITIMER_VIRTUAL, 0)
 
 
 def where(e):
@@ -103,7 +130,7 @@ class Channel(object):
     try:
       rec["parsed"] = event.parsed
       rec["again"] = event.parse()
-    except Exception as e:                     # the observation C15 is about
+    except (Exception, Diverged) as e:         # the observation C15 is about
       rec["exc"] = (type(e).__name__, str(e)[:200], where(e))
     self.got.append(rec)
 
@@ -111,7 +138,8 @@ class Channel(object):
     """Deliver `frame` as packet-in data; returns the handler's record."""
     del self.got[:]
     n = len(self.sock.out)
-    self._feed(rb.packet_in(rb.NO_BUFFER, len(frame), 1, 0, frame))
+    with deadline():
+      self._feed(rb.packet_in(rb.NO_BUFFER, len(frame), 1, 0, frame))
     if len(self.got) != 1:
       raise Machinery("C15 env: %d PacketIn events for one OFPT_PACKET_IN" % len(self.got))
     rec = self.got[0]
